@@ -201,6 +201,151 @@ def read_thread_producers(src):
     return {"order": order, "sites": sites, "site_spans": spans, "thread_span": span}, None
 
 
+
+# ----------------------------------------------------------------- the history buffer: only ever pushed to
+BUF_DECL_RE = re.compile(r"\b(\w+)\s*:\s*&?\s*(?:'\w+\s+)?Arc<Mutex<Vec<Event>>>")
+BUF_READ_METHODS = {"iter", "clone", "len", "last", "first", "is_empty", "get", "as_slice", "to_vec", "contains", "is_ok", "is_err", "binary_search_by_key", "windows", "chunks"}
+BUF_CLEAR_METHODS = {"clear", "drain"}
+BUF_SHRINK_METHODS = {"truncate", "split_off", "pop", "remove", "retain", "retain_mut", "swap_remove", "dedup", "dedup_by", "dedup_by_key"}
+
+
+def classify_buffer_uses(text, g):
+    """every use of the guard token `g` in `text` -> list of (op, snippet); op in push / BRead / BTake / BRestore / BClear /
+    BTruncate / None (unreadable)"""
+    out = []
+    G = re.escape(g)
+    for m in re.finditer(r"(?<![\w.])" + G + r"(?![\w])", text):
+        before = text[max(0, m.start() - 60):m.start()]
+        after = text[m.end():m.end() + 80]
+        snip = (before[-30:] + g + after[:30]).replace("\n", " ")
+        if re.search(r"\blet\s+(?:mut\s+)?$", before) or re.search(r"\bdrop\(\s*$", before):
+            continue  # the binding itself / drop(guard)
+        if re.search(r"mem::(take|replace|swap)\(\s*&mut\s*\*?\s*$", before):
+            out.append(("BTake", snip))
+            continue
+        if re.search(r"(?<![\w*)\]])\*\s*$", before) and re.match(r"\s*=(?!=)", after):
+            rhs = after[after.find("=") + 1:]
+            if re.match(r"\s*(Vec::new\(\)|vec!\[\s*\]|Default::default\(\)|Vec::with_capacity\()", rhs):
+                out.append(("BClear", snip))
+            else:
+                out.append(("BRestore", snip))
+            continue
+        mm = re.match(r"\s*\.\s*(\w+)\s*\(", after)
+        if mm:
+            meth = mm.group(1)
+            if meth == "push":
+                out.append(("push", snip))
+            elif meth in BUF_READ_METHODS:
+                out.append(("BRead", snip))
+            elif meth in BUF_CLEAR_METHODS:
+                out.append(("BClear", snip))
+            elif meth in BUF_SHRINK_METHODS:
+                out.append(("BTruncate 0", snip))
+            else:
+                out.append((None, snip))
+            continue
+        if re.search(r"&\s*\*?\s*$", before) and not re.search(r"&mut\s*\*?\s*$", before):
+            out.append(("BRead", snip))  # handed out as a shared slice (write_snapshot(.., &guard))
+            continue
+        if re.match(r"\s*;", after) and re.search(r"=\s*$", before):
+            continue  # `let x = guard;` style move: nothing yet (x is not tracked -> caught below if it matters)
+        out.append((None, snip))
+    return out
+
+
+def read_buffer_ops(files):
+    """files: [(rel, src)] (comments and unit tests stripped).  Every access to a stream history buffer
+    (`Arc<Mutex<Vec<Event>>>`, reached through lock()/try_lock()/blocking_lock()) classified.
+    Returns ({"ops": [(rel, op, snippet)], "pushes": {rel: n}}, None) or (None, why)."""
+    names = set()
+    for rel, src in files:
+        names.update(BUF_DECL_RE.findall(src))
+    if not names:
+        return None, "no `Arc<Mutex<Vec<Event>>>` history buffer declared"
+    alt = "|".join(sorted(re.escape(n) for n in names))
+    lock_re = re.compile(r"((?:\b\w+\s*\.\s*)*)\b(" + alt + r")\s*\.\s*(lock\(\)\s*\.\s*await|try_lock\(\)|blocking_lock\(\))")
+    ops, pushes, sites = [], {}, 0
+    for rel, src in files:
+        pushes.setdefault(rel, 0)
+        for m in lock_re.finditer(src):
+            sites += 1
+            f = enclosing_fn(src, m.start())
+            if not f:
+                return None, f"{rel}: buffer lock outside any fn"
+            fname, b0, b1 = f
+            # the statement holding the lock expression
+            s0 = max(src.rfind(";", b0, m.start()), src.rfind("{", b0, m.start()), src.rfind("}", b0, m.start())) + 1
+            s1 = src.find(";", m.end())
+            s1 = b1 if s1 < 0 or s1 > b1 else s1 + 1
+            stmt = src[s0:s1]
+            lock_text = src[m.start():m.end()]
+            bm = re.match(r"\s*let\s+(?:mut\s+)?(\w+)\s*=\s*" + re.escape(lock_text) + r"\s*;\s*$", stmt)
+            if bm:
+                uses = classify_buffer_uses(src[s1:b1], bm.group(1))
+            else:
+                uses = classify_buffer_uses(stmt.replace(lock_text, "GUARD__"), "GUARD__")
+                if not uses:
+                    uses = [(None, stmt.strip()[:70])]
+            for op, snip in uses:
+                if op is None:
+                    return None, f"{rel}::{fname}: use of the history buffer not readable: `{snip}`"
+                if op == "push":
+                    pushes[rel] += 1
+                else:
+                    ops.append((rel, fname, op, snip))
+    if sites == 0:
+        return None, "no lock on a history buffer found"
+    return {"ops": ops, "pushes": pushes}, None
+
+
+# ----------------------------------------------------------------- the thread handler's history source
+def read_replay_check(cache_src, cont_src):
+    """ContinuityStore::replay_events = sidecar if ContinuityStreamCache::try_replay accepts it, else the truth log;
+    try_replay must require first seq 0 and successor seqs."""
+    sp = fn_span(cont_src, "replay_events")
+    if not sp:
+        return None, "fn replay_events not found"
+    body = cont_src[sp[0]:sp[1]]
+    tm = re.search(r"if\s+let\s+Ok\(\s*Some\(\s*(\w+)\s*\)\s*\)\s*=\s*self\s*\.\s*stream_cache\s*\.\s*try_replay\(\s*continuity_id\s*\)\s*\{\s*return\s+Ok\(\s*\1\s*\)\s*;\s*\}", body)
+    lm = re.search(r"self\s*\.\s*event_log\s*\.\s*replay_stream\(\s*StreamKind::Continuity\s*,\s*continuity_id\s*\)", body)
+    if not tm or not lm or tm.start() > lm.start():
+        return None, "replay_events is not `if let Ok(Some(e)) = stream_cache.try_replay(id) { return Ok(e) }` followed by event_log.replay_stream"
+    if len(re.findall(r"\breturn\b", body)) != 1:
+        return None, "replay_events has another early return"
+    sp = fn_span(cache_src, "try_replay")
+    if not sp:
+        return None, "fn try_replay not found"
+    body = cache_src[sp[0]:sp[1]]
+    im = re.findall(r"let\s+mut\s+expected_seq\s*:\s*u64\s*=\s*([0-9_]+)\s*;", body)
+    if len(im) != 1:
+        return None, "try_replay: `let mut expected_seq: u64 = N;` not found once"
+    first = int(im[0].replace("_", ""))
+    cm = re.findall(r"if\s+event\s*\.\s*seq\s*(!=|<=|>=|<|>|==)\s*expected_seq\s*\{\s*return\s+Err\(", body)
+    if len(cm) != 1:
+        return None, f"try_replay: {len(cm)} comparisons `if event.seq OP expected_seq {{ return Err(` (expected 1)"
+    assigns = re.findall(r"\bexpected_seq\s*(\+=|=)\s*([^;]+);", body)
+    assigns = [(o, r.strip()) for o, r in assigns if not r.strip().startswith("=")]
+    if len(assigns) != 1:
+        return None, f"try_replay: {len(assigns)} updates of expected_seq (expected 1)"
+    o, rhs = assigns[0]
+    succ_expected = (o == "=" and re.fullmatch(r"expected_seq\s*\.\s*(saturating_add|wrapping_add)\(\s*1\s*\)|expected_seq\s*\+\s*1", rhs)) or (o == "+=" and rhs == "1")
+    succ_seq = o == "=" and re.fullmatch(r"event\s*\.\s*seq\s*\.\s*(saturating_add|wrapping_add)\(\s*1\s*\)|event\s*\.\s*seq\s*\+\s*1", rhs)
+    if cm[0] == "!=" and (succ_expected or succ_seq):
+        cmp_ = "SeqExact"
+    elif cm[0] == "<" and succ_seq:
+        cmp_ = "SeqIncreasing"
+    else:
+        return None, f"try_replay: check `event.seq {cm[0]} expected_seq` with update `expected_seq {o} {rhs}` not modelled"
+    # the comparison must precede the push of the same loop, the update follows it
+    pm = re.search(r"\bevents\s*\.\s*push\(\s*event\s*\)", body)
+    km = re.search(r"if\s+event\s*\.\s*seq\s*(!=|<=|>=|<|>|==)\s*expected_seq", body)
+    if not pm or km.start() > pm.start():
+        return None, "try_replay: the seq check does not precede events.push(event)"
+    if not re.search(r"if\s+events\s*\.\s*is_empty\(\)\s*\{\s*return\s+Err\(", body):
+        return None, "try_replay: an empty sidecar is not rejected"
+    return {"first": first, "cmp": cmp_}, None
+
+
 # ----------------------------------------------------------------- handlers
 FILTER_RE = re.compile(
     r"if\s+last_seq\s*\.map\(\s*\|\s*last\s*\|\s*event\.seq\s*(<=|<|>=|>|==|!=)\s*last\s*\)\s*\.unwrap_or\(\s*(true|false)\s*\)\s*\{\s*return\s+None\s*;\s*\}")
